@@ -1140,12 +1140,20 @@ class C01(fw.Prop):
         n = 300 if tier == "quick" else 3500
         cases = []
         roots = [None, None, None, "dfg", "module", "func", "loop", "cond", "cfg"]
+        # fourth pass: every program of these streams is now also run through a Coq builder model (run3s); to keep the quick
+        # tier inside its budget the last 30 / 60 draws of the first two streams are made (the seeds of the later streams stay
+        # what they were) but not used
+        keep1, keep2 = (270, 190) if tier == "quick" else (n, 1800)
         for i in range(n):
-            cases.append({"seed": rng.randrange(1 << 30), "root": roots[i % len(roots)]})
+            c = {"seed": rng.randrange(1 << 30), "root": roots[i % len(roots)]}
+            if i < keep1:
+                cases.append(c)
         # programs inside the builder model (model/Builder.v): the tie for the theorems
-        for i in range(250 if tier == "quick" else 2500):
-            cases.append({"seed": rng.randrange(1 << 30), "root": "dfg", "allow": ["nested", "order", "md"],
-                          "size": rng.choice([5, 8, 10, 14]), "depth": rng.choice([2, 3, 4, 5])})
+        for i in range(250 if tier == "quick" else 1800):
+            c = {"seed": rng.randrange(1 << 30), "root": "dfg", "allow": ["nested", "order", "md"],
+                 "size": rng.choice([5, 8, 10, 14]), "depth": rng.choice([2, 3, 4, 5])}
+            if i < keep2:
+                cases.append(c)
         # the tracked dataflow builder (TrackedDfg.add / extend / track_wire / untrack_wire / set_*_outputs): commands
         # mix tracked indices and explicit wires in any order (drawn last: the seeds of the streams above are unchanged)
         for i in range(48 if tier == "quick" else 500):
